@@ -63,7 +63,7 @@ CHECKS = {
     text=('Bounded checking of identities and cross-references over population histories: the real solver constructor and run_iteration (division pass with divide_cell replaced by its contract, refinement, contact model 1, '
           'polarisation, forces, integrator, removal) run in irsym on row tissues of 2-4 cells for 3 iterations. Removal histories are enumerated (each cell, first iterations); which cells divide is decided by z3 through symbolic '
           'division volumes. After every iteration an oracle checks index = list position, id uniqueness and no reuse, mutual couplings to live nodes, owner pointers, face-type index range; the memory monitors check every dereference.'),
-    note='Trusted: irsym incl. OpenMP/filesystem/writer stubs (listed in evidence), clang lowering validated on a whole run. Outside: the real divide_cell (C09), > 4 cells, > 3 iterations, contact models 0/2, configurations in which a whole face is coupled (polarisation writes of face-type indices).',
+    note='Trusted: irsym incl. OpenMP/filesystem/writer stubs (listed in evidence), clang lowering validated on a whole run. Two scenarios run contact model 0 (epithelial cell with 2 / 3 face types over an ECM cell): face-type indices written by the polarisation rules. One open known finding (face-type index 2 with two face types, see known_findings.json). Outside: the real divide_cell (C09), > 4 cells, > 3 iterations, contact model 2.',
     technique='symbolic execution of the whole iteration in LLVM IR with enumerated removal schedules and solver-decided division subsets; independent oracle + memory monitors; native replay',
     design='3/C08'),
  'C10': dict(
